@@ -290,14 +290,27 @@ fn c08_grids_at_first_hit_3() {
     grids_at_case(3);
 }
 
-//@h {"id":"C08.K.gravsoft.units","props":["C08","C15"],"tier":"quick","kind":"bounded","bound":"2x2 grids with 1, 2 and 3 bands on a 1-degree geometry; node values: power-of-two probes","timeout":1800,"text":"Gravsoft normalisation: header degrees -> radians; 2 bands: (lat,lon) arcsec -> (lon,lat) radians; 3 bands: (lat,lon,h) mm/yr -> (lon,lat,h) m/yr; 1 band and projected (|border| > 720) grids untouched"}
+//@h {"id":"C08.K.gravsoft.units","props":["C08","C15"],"tier":"quick","kind":"bounded","bound":"2x2 grids with 1, 2 and 3 bands on a 1-degree geometry; node values: power-of-two probes","timeout":1800,"text":"Gravsoft normalisation: header degrees -> radians; 2 bands: (lat,lon) arcsec -> (lon,lat) radians; 3 bands: (lat,lon,h) mm/yr -> (lon,lat,h) m/yr; 1 band and projected grids (ANY border beyond +-720: all four, the eastings only, one northing only) untouched"}
 #[kani::proof]
 #[kani::unwind(16)]
 fn c08_gravsoft_units() {
     let bands: usize = kani::any();
     kani::assume(bands >= 1 && bands <= 3);
     let projected: bool = kani::any();
-    let mut header = if projected { [6000000.0, 5999000.0, 500000.0, 501000.0, 1000.0, 1000.0, bands as f64] } else { [56.0, 55.0, 12.0, 13.0, 1.0, 1.0, bands as f64] };
+    // projected grids: ANY border beyond +-720 marks the grid as projected (here: all four, or only the eastings while the
+    // northings 0..1000 m look like degrees, or only one northing)
+    let variant: u8 = kani::any();
+    kani::assume(variant < 3);
+    let mut header = if projected {
+        match variant {
+            0 => [6000000.0, 5999000.0, 500000.0, 501000.0, 1000.0, 1000.0, bands as f64],
+            1 => [500.0, -500.0, 500000.0, 501000.0, 1000.0, 1000.0, bands as f64],
+            _ => [1000.0, 0.0, 0.0, 700.0, 1000.0, 700.0, bands as f64],
+        }
+    } else {
+        [56.0, 55.0, 12.0, 13.0, 1.0, 1.0, bands as f64]
+    };
+    let header0 = header;
     let orig: [f32; 12] = [1.0, 2.0, 4.0, 8.0, 16.0, 32.0, 64.0, 128.0, 256.0, 512.0, 1024.0, 2048.0];
     let mut grid = orig;
     let n = 4 * bands;
@@ -309,7 +322,9 @@ fn c08_gravsoft_units() {
         kani::assume(i < n);
         assert!(grid[i] == orig[i], "C08.K.gravsoft.untouched: geoid grids and projected grids keep their values");
         if projected {
-            assert!(header[0] == 6000000.0 && header[4] == 1000.0, "C08.K.gravsoft.projected_header: projected headers untouched");
+            let k: usize = kani::any();
+            kani::assume(k < 7);
+            assert!(header[k] == header0[k], "C08.K.gravsoft.projected_header: projected headers untouched");
         }
     } else if bands == 2 {
         let (lat, lon) = (orig[2 * node], orig[2 * node + 1]);
